@@ -39,7 +39,7 @@ func c01Tokenizer(c *Ctx) {
 			r.Violate("tokenizer-loop", key, p.Pos(bad[i][0].pos), strings.Join(parts, "; "))
 		}
 	}
-	r.Floor("tokenizer-loop", nl, 20, "loops in tokenizer functions")
+	r.Floor("tokenizer-loop", nl, 12, "loops in tokenizer functions")
 	r.Extra("tokenizer_loops", nl)
 	r.Assume("tokenizer progress atoms (pos.AdvanceRune, pos.Index += rune size) are only executed below len(input): each is preceded by a read of input[pos] whose bounds obligation is part of the index-bounds rule")
 }
